@@ -142,6 +142,15 @@ func (m *MethodEvaluator) parseKeyIdentifierToKeyWordT(
 		return nil, err
 	}
 
+	// inside parentheses the argument list goes on over line ends: 'a:' at
+	// the end of a line is followed by ')' or by its value on the next line
+	for m.isParentheses && t.IsNewLineIdentifier() {
+		t, err = m.parser.Read()
+		if err != nil {
+			return nil, err
+		}
+	}
+
 	// test(a: 1)
 	if !t.IsTargetIdentifier(endIdentifier) && !t.IsCommaIdentifier() {
 		// the value is a whole expression ('a: x.size + 1'), parsed like a
